@@ -218,7 +218,7 @@ def diag_of_table(rel):
     return -1
 
 
-def run_session(ctx, entry, S, mesh_numbers, k, mg, pmat=None, recorder=None):
+def run_session(ctx, entry, S, mesh_numbers, k, mg, pmat=None, recorder=None, with_presentations=True):
     name = "%s S=%s mesh=%s%s" % (entry, S, mesh_numbers, "" if pmat is None else " P=%s" % pmat)
     orc = Oracle(entry, [S], seed=ctx.seed + 11 + k, ctx=ctx)
     with contextlib.redirect_stdout(io.StringIO()):
@@ -563,6 +563,69 @@ def run_session(ctx, entry, S, mesh_numbers, k, mg, pmat=None, recorder=None):
         attempt(dict(op="reordered", kind=what, method=method, order=order),
                 lambda st, a=what, b=method, c=order: reordered(st, a, b, c))
 
+    # ---- presentation of the window arguments (int / float / numpy scalars) -------------------
+    if with_presentations:
+        from phonopy.units import VaspToCm
+        with contextlib.redirect_stdout(io.StringIO()):
+            pc = Phonopy(orc.unitcell(), supercell_matrix=S, primitive_matrix=pmat, factor=VaspToCm, log_level=0)
+        pc.force_constants = orc.supercell_fc(S, pc.supercell)
+        pc.run_mesh(mesh_numbers, with_eigenvectors=True, is_mesh_symmetry=False, is_gamma_center=gamma)
+        mc_ = pc._mesh
+        fr_c, eig_c = np.array(mc_.frequencies), np.array(mc_.eigenvectors)
+        tup_c = {d: star_tuples(mc_, fr_c, d) for d in cands}
+        lo_i, hi_i = int(np.floor(fr_c.min())) - 4, int(np.ceil(fr_c.max())) + 4
+        step_i = max(1, (hi_i - lo_i) // 45)
+        hi_i = lo_i + step_i * ((hi_i - lo_i + step_i - 1) // step_i)
+        sig_i = float(max(2, (hi_i - lo_i) // 20))
+        forms = dict(int=(int, int, int), float=(float, float, float), npint64=(np.int64, np.int64, np.int64),
+                     npfloat32=(np.float32, np.float32, np.float32), mixed=(int, float, int))
+
+        def one(what, method, form):
+            a, b, c = forms[form]
+            kw = dict(freq_min=a(lo_i), freq_max=b(hi_i), freq_pitch=c(step_i))
+            sigma = None if method == "tetrahedron" else sig_i
+            if what == "total":
+                pc.run_total_dos(sigma=sigma, **kw)
+                d = pc.get_total_dos_dict()
+                return np.array(d["frequency_points"]), np.array(d["total_dos"])
+            pc.run_projected_dos(sigma=sigma, **kw)
+            d = pc.get_projected_dos_dict()
+            return np.array(d["frequency_points"]), np.array(d["projected_dos"])
+
+        def presented(st, what, method, form):
+            fp, val = one(what, method, form)
+            fp0, val0 = twins[(what, method)]
+            fpf = np.asarray(fp, dtype="double")
+            st["npoints"] = int(len(fpf))
+            st["sameGrid"] = bool(len(fpf) == len(fp0) and len(fpf) > 20 and np.array_equal(fpf, fp0))
+            st["finite"] = bool(np.all(np.isfinite(val)))
+            st["nonneg"] = bool(st["finite"] and val.min() >= -1e-12 * max(1.0, float(np.max(np.abs(val)))))
+            co = coefficients(eig_c, "atoms") if what == "projected" else None
+            if method == "tetrahedron":
+                res = best_match(val, lambda dd: def_dos_thm(def_gp_weights("I", tup_c[dd][0], fp0), tup_c[dd][1],
+                                                             tup_c[dd][2], co))
+            else:
+                res = rel(val, def_dos_smear("normal", sig_i, fr_c, mc_.weights, fp0, co))
+            st["matches"] = cls(res, TOL_POINT)
+            same = rel(val, val0) if val.shape == val0.shape else float("inf")
+            st["sameAsFloat"] = cls(same, TOL_POINT)
+            tot, tot0 = (val if val.ndim == 1 else val.sum(axis=0)), (val0 if val0.ndim == 1 else val0.sum(axis=0))
+            integ = abs(trapz(tot, fp0) - trapz(tot0, fp0)) / nb if st["sameGrid"] else float("inf")
+            st["sameIntegral"] = cls(integ, TOL_POINT)
+            mg.note("presented grid point-wise", res, TOL_POINT)
+            mg.note("presented grid vs float twin", same, TOL_POINT)
+
+        twins = {}
+        combos = (("total", "tetrahedron"), ("projected", "tetrahedron"), ("total", "normal"), ("projected", "normal"))
+        for what, method in combos:
+            twins[(what, method)] = one(what, method, "float")
+        # (a session whose every simplex is flat has a zero tetrahedron DOS: nothing to tell apart there)
+        ses["presentations"] = bool(trapz(twins[("total", "tetrahedron")][1], twins[("total", "tetrahedron")][0]) > 0.5 * nb)
+        for form in (("int", "npint64", "npfloat32", "mixed", "float") if ses["presentations"] else ()):
+            for what, method in combos:
+                attempt(dict(op="presented", present=form, kind=what, method=method),
+                        lambda st, a=what, b=method, c=form: presented(st, a, b, c))
+
     # ---- symmetry-reduced grid ----------------------------------------------------
     attempt(dict(op="mesh", symmetry=True), lambda st: ph.run_mesh(
         mesh_numbers, with_eigenvectors=False, is_mesh_symmetry=True, is_gamma_center=gamma))
@@ -605,6 +668,7 @@ INVARIANT ImplDensityIsDerivative
 INVARIANT ImplIntegral
 INVARIANT ImplOrderIndependent
 INVARIANT ImplMainDiagonal
+INVARIANT ImplPresentationIndependent
 INVARIANT ImplSmearingFunction
 INVARIANT ImplSmearingTotal
 INVARIANT ImplSmearingProjected
@@ -623,15 +687,18 @@ def run(ctx):
         entry, S, mesh_numbers = item[:3]
         with _Recorder() as recorder:
             ses = run_session(ctx, entry, S, mesh_numbers, k, mg, pmat=item[3] if len(item) > 3 else None,
-                              recorder=recorder)
+                              recorder=recorder, with_presentations=(not ctx.quick) or k % 2 == (ctx.seed % 2))
         sessions.append(ses)
         for st in ses["steps"]:
             ctx.count(("api", ses["name"], st["op"], st.get("method"), st.get("kind"), st.get("grid"), st.get("reduced"),
-                       st.get("order"), st.get("fn"), st.get("width")))
+                       st.get("order"), st.get("fn"), st.get("width"), st.get("present")))
     ctx.traces += len(sessions)
     ctx.extra["E_sessions"] = [dict(name=s["name"], steps=len(s["steps"]), diag_candidates=s.get("diag_candidates"),
                                     n_ir=s.get("n_ir"), mesh_changes_diagonal=s.get("mesh_changes_diagonal"))
                                for s in sessions]
+    if sum(1 for s in sessions if s.get("presentations")) < 2:
+        raise tlcmod.MachineryError("API sessions: fewer than two with the window arguments in several presentations")
+    ctx.extra["E_sessions_with_presentations"] = sum(1 for s in sessions if s.get("presentations"))
     # no vacuity: sessions in which dividing the reciprocal vectors by the mesh numbers changes the shortest diagonal
     if sum(1 for s in sessions if s.get("mesh_changes_diagonal")) < 2:
         raise tlcmod.MachineryError("API sessions: fewer than two in which the mesh changes the shortest main diagonal")
